@@ -12,7 +12,7 @@ from ..canon import dict_world_key
 from ..driver import Ctx
 from ..explore import bfs, run_history
 from ..report import Violation, finish
-from ..worlds import DictWorld
+from ..worlds import DictWorld, StepBudgetExceeded
 
 PROP = 'C05'
 
@@ -411,6 +411,122 @@ class Model:
 
 CONFIGS = [(False, False), (True, False), (True, True), (False, True)]
 
+# ---- delivery timing: the same command sequence, delivered differently -------
+#
+# "Which commands are accepted depends only on the connection state reached so
+# far": not on when the bytes of the next command arrive.  For every reached
+# state S and every ordered pair (e1, e2) the pair is executed three times on a
+# fresh replay of S -- e2 sent after the server went quiescent (the default
+# environment), e2 sent the moment e1's tagged response is visible (eager
+# client: background tasks of e1 are still pending), and both in one segment
+# (pipelined) -- and the tagged conditions and the final control state + data
+# must agree with the quiescent run.
+
+E1_QUICK = ['IDLE-DONE', 'IDLE-garbage', 'SELECT-INBOX', 'EXAMINE-INBOX',
+            'SELECT-missing', 'CLOSE', 'LOGIN-good', 'LOGIN-badpw', 'STARTTLS',
+            'APPEND-INBOX-lit+', 'STORE', 'EXPUNGE', 'FETCH-body', 'BOGUS']
+
+
+def _pipelinable(ev) -> bool:
+    # a client must wait for '+' before a synchronising literal / SASL
+    # response; LOGOUT ends the connection (nothing may follow)
+    return (not ev['conts'] or ev.get('idle')) and not ev.get('logout')
+
+
+def _send_until(ctx, si, data, tags, max_handles=20000):
+    """Feed ``data`` and run the loop one iteration at a time until a
+    tagged response for one of ``tags`` is visible (or nothing is runnable).
+    Returns the responses seen."""
+    w = ctx.world
+    s = ctx.session(si)
+    s.conn.feed(data)
+    seen = []
+    n = 0
+    while True:
+        w.loop._move_due_timers()
+        if not w.loop._ready:
+            break
+        n += w.loop.step()
+        _, rs = s.pull()
+        seen += rs
+        if any(r.kind == 'tagged' and r.tag in tags for r in rs):
+            break
+        if n > max_handles:
+            raise StepBudgetExceeded('eager send')
+    return seen
+
+
+def _pair_run(model, history, e1, e2, mode):
+    ctx = model.new()
+    try:
+        for i in history:
+            model.apply(ctx, i)
+        s = ctx.session(0)
+        if s.done or s.conn.closed:
+            return None
+        a, b = model._alpha[e1], model._alpha[e2]
+        l1 = b'x1 ' + a['line'] + b'\r\n' + b''.join(a['conts'])
+        l2 = b'x2 ' + b['line'] + b'\r\n' + b''.join(b['conts'])
+        rs = []
+        if mode == 'quiescent':
+            for ln in (l1, l2):
+                if s.done or s.conn.closed:
+                    break
+                _, r = ctx.world.send(s, ln)
+                rs += r
+        elif mode == 'eager':
+            rs += _send_until(ctx, 0, l1, (b'x1',))
+            if not (s.done or s.conn.closed):
+                rs += _send_until(ctx, 0, l2, (b'x2',))
+        else:
+            s.conn.feed(l1 + l2)
+        ctx.world.loop.run_until_quiescent(horizon=0.0)
+        _, r = s.pull()
+        rs += r
+        conds = tuple((r.tag, r.name) for r in rs if r.kind == 'tagged'
+                      and r.tag in (b'x1', b'x2'))
+        bye = any(r.kind == 'untagged' and r.name == 'BYE' for r in rs)
+        return conds, effect_key(ctx), bye
+    finally:
+        ctx.close()
+
+
+def _pair_task(args):
+    params, history, e1 = args
+    m = Model(params['tls'], params['local'])
+    out = []
+    n = 0
+    for e2 in range(len(m._alpha)):
+        if not _pipelinable(m._alpha[e1]):
+            continue
+        if not (_pipelinable(m._alpha[e2]) or m._alpha[e2].get('logout')):
+            continue
+        base = _pair_run(m, history, e1, e2, 'quiescent')
+        if base is None:
+            continue
+        for mode in ('eager', 'pipelined'):
+            n += 1
+            got = _pair_run(m, history, e1, e2, mode)
+            if got == base:
+                continue
+            names = [m._alpha[i]['name'] for i in history]
+            a, b = m._alpha[e1]['name'], m._alpha[e2]['name']
+            what = 'tagged conditions' if got[0] != base[0] else \
+                'final control state / data'
+            ctl = ''
+            if got[0] == base[0]:
+                ctl = f' (connection {base[1][1]} vs {got[1][1]})'
+            out.append(Violation(
+                'delivery-timing', f'{a};{b}:{mode}',
+                f'after {names}: {a} then {b} delivered {mode} gives '
+                f'different {what} than when {b} is sent after the server '
+                f'went quiescent: {[(t.decode(), c) for t, c in got[0]]} vs '
+                f'{[(t.decode(), c) for t, c in base[0]]}{ctl}',
+                replay={'pair': True, 'params': params,
+                        'history': list(history), 'e1': e1, 'e2': e2,
+                        'mode': mode}))
+    return out, n
+
 
 def run(*, tier, seed, jobs, progress, opts):
     t0 = time.perf_counter()
@@ -440,6 +556,30 @@ def run(*, tier, seed, jobs, progress, opts):
             for i, e in enumerate(m.alphabet())}
         violations += res.violations
         errors += res.errors
+        # delivery-timing differential on the states reached so far
+        pdepth = int(opts.get('pair_depth', 2 if tier == 'quick' else 3))
+        if tier == 'quick' and (tls, local) != (False, False):
+            continue
+        names = [e['name'] for e in m.alphabet()]
+        e1s = [names.index(n) for n in E1_QUICK] if tier == 'quick' \
+            else list(range(len(names)))
+        hists = [h for h in sorted(res.state_histories,
+                                   key=lambda h: (len(h), h))
+                 if len(h) <= pdepth]
+        import multiprocessing as mp
+        ptasks = [(m.params, h, e1) for h in hists for e1 in e1s]
+        pairs = 0
+        with mp.get_context('fork').Pool(jobs or 16) as pool:
+            for vs, n in pool.imap_unordered(_pair_task, ptasks,
+                                             chunksize=4):
+                violations += vs
+                pairs += n
+        cov.setdefault('delivery_timing', []).append({
+            'tls_offered': tls, 'local_peer': local,
+            'states': len(hists), 'state_depth': pdepth,
+            'first_commands': len(e1s), 'executions': pairs})
+        cov['transitions'] += pairs
+        cov['traces_validated_against_impl'] += pairs
     if errors:
         print(errors[0])
         raise RuntimeError('harness error during exploration')
@@ -449,7 +589,14 @@ def run(*, tier, seed, jobs, progress, opts):
     cov['exhaustive'] = True
     cov['rule'] = ('all command sequences of length <= depth over the '
                    'alphabet, deduplicated by canonical glass-box state; '
-                   'every transition is one execution of the real server')
+                   'every transition is one execution of the real server; '
+                   'delivery timing: in every state reached within '
+                   'state_depth commands, every ordered pair of commands '
+                   '(quick: 14 first commands x all second commands) is '
+                   'executed with the second command sent at quiescence, the '
+                   'moment the first tagged response is visible, and '
+                   'pipelined in one segment; tagged conditions and final '
+                   'control state + data must agree')
     return finish(PROP, tier=tier, seed=seed, level='model_checking',
                   coverage=cov, violations=violations, t0=t0, assumptions=[
                       'single connection; dict backend with demo data; '
@@ -461,6 +608,13 @@ def run(*, tier, seed, jobs, progress, opts):
 def replay(rec):
     r = rec['replay']
     m = Model(r['params']['tls'], r['params']['local'])
+    if r.get('pair'):
+        base = _pair_run(m, r['history'], r['e1'], r['e2'], 'quiescent')
+        got = _pair_run(m, r['history'], r['e1'], r['e2'], r['mode'])
+        if got != base:
+            print('VIOLATION-REPLAYED delivery-timing', got[0], base[0])
+            return 1
+        return 0
     viols = run_history(m, r['history'])
     for v in viols:
         print('VIOLATION-REPLAYED', v['rule'], v['site'], v['msg'])
